@@ -46,11 +46,11 @@ def make(desc):
 
 def gen_desc(rng, sysbias=0.35):
     r = rng.random()
-    if r < 0.1: return ['const', rng.randrange(4), rng.choice((0, 0, 1, 2))]
+    if r < 0.1: return ['const', rng.randrange(4), rng.choice((0, 0, 1, 2, 11, 120))]
     if r < 0.18: return ['var', rng.randrange(4), rng.choice((0, 0, 1))]
     if r < 0.3:
         if rng.random() < sysbias: return ['pred', rng.choice(('Identity', 'Existence'))]
-        return ['pred', rng.randrange(4), rng.choice((0, 0, 1)), rng.choice((1, 1, 2, 3))]
+        return ['pred', rng.randrange(4), rng.choice((0, 0, 1, 13)), rng.choice((1, 1, 2, 3))]
     if r < 0.34: return ['oper', rng.choice(refsem.OPERATORS)]
     if r < 0.37: return ['quant', rng.choice(('Existential', 'Universal'))]
     prof = lexgen.Profile(rng, modal=rng.random() < 0.4, quant=rng.random() < 0.5, preds=True,
@@ -91,8 +91,13 @@ def gen_ops(rng, n):
             ops.append(['mutate', rng.randrange(1 << 16), rng.choice(('set', 'del')), rng.randrange(8)])
         elif r < 0.92:
             ops.append(['derive', rng.randrange(1 << 16), rng.choice(('negate', 'negative', 'substitute', 'unquantify', 'next'))])
-        else:
+        elif r < 0.96:
             ops.append(['evict', rng.choice((1, 2, 5, 12, 1200))])
+        else:
+            # an invalid spec must be refused whatever was constructed (and cached) before
+            ops.append(['invalid', rng.choice((['Constant', 0, -1], ['Constant', -1, 0], ['Constant', 9, 0], ['Variable', 0, -2],
+                                              ['Atomic', 7, 0], ['Atomic', 0, -1], ['Predicate', 0, 0, 0], ['Predicate', 0, -1, 1],
+                                              ['Predicate', 5, 0, 1], ['Predicate', 0, 0, -1]))])
     return ops
 
 _filler = [0]
@@ -238,6 +243,21 @@ def execute(spec, cache=None):
                     log.append(('derive', op[2], tn2))
             elif name == 'evict':
                 evict(min(op[1], spec['cache'] + 3))
+            elif name == 'invalid':
+                cls = dict(Constant=Constant, Variable=Variable, Atomic=Atomic, Predicate=Predicate)[op[1][0]]
+                # a valid neighbour first, so that a colliding cache entry could exist
+                try:
+                    cls(*[abs(x) % 3 + (1 if cls is Predicate and i == 2 else 0) for i, x in enumerate(op[1][1:])])
+                except Exception:
+                    pass
+                # whether a spec is refused is not C14's business; that the answer is the same in
+                # every construction history (the twin run) is
+                try:
+                    cls(*op[1][1:])
+                except Exception as e:
+                    log.append(('invalid', op[1][0], 'refused'))
+                else:
+                    log.append(('invalid', op[1][0], 'accepted'))
     except Fail as f:
         return log, (f, step)
     return log, None
